@@ -78,6 +78,8 @@ pub struct World {
     /// replay: recorded answers per (source, operation)
     pub scripted: Option<HashMap<(Src, &'static str), VecDeque<Ans>>>,
     pub next_item: u64,
+    /// harness-specific counter (req/rep: number of requestors queued so far)
+    pub aux: u64,
 }
 
 pub type W = Arc<Mutex<World>>;
@@ -98,6 +100,7 @@ impl World {
             items_in_poll: 0,
             scripted: None,
             next_item: 0,
+            aux: 0,
         }
     }
 
@@ -255,6 +258,7 @@ impl<T> Sink<T> for MockSink<T> {
 /// Mock stream; `make` builds (textual form, value) of a fresh item.
 pub struct MockStream<T> {
     pub id: u64,
+    pub ended: bool,
     pub w: W,
     pub make: Box<dyn FnMut(&mut World) -> String + Send>,
     pub parse: fn(&str) -> T,
@@ -277,7 +281,19 @@ impl<T> Stream for MockStream<T> {
         let wref = this.w.clone();
         let mut w = wref.lock().unwrap_or_else(|p| p.into_inner());
         let src = Src::Stream(this.id);
-        let a = w.stream_answer(src, &mut *this.make);
+        let a = if this.ended {
+            // a finished stream keeps answering None (FramedRead after EOF)
+            w.calls_in_poll += 1;
+            if w.calls_in_poll > SPIN_LIMIT {
+                panic!("SPIN: more than {} peer calls inside one poll", SPIN_LIMIT);
+            }
+            Ans::End
+        } else {
+            w.stream_answer(src, &mut *this.make)
+        };
+        if a == Ans::End {
+            this.ended = true;
+        }
         match a {
             Ans::Item(txt) => {
                 w.wakers.remove(&src);
